@@ -26,7 +26,7 @@ Record phys_ok (L : logical) (P : trie) : Prop := mkPhys {
   ph_base  : forall u, u < lenN (lg_units L) -> nthb (lg_leaves L) u = false ->
              bc_base (t_bc P) u = Ok (fst (nthu (lg_units L) u));
   ph_link  : forall u, u < lenN (lg_units L) -> nthb (lg_leaves L) u = true ->
-             exists tpos, bc_link (t_bc P) u = Ok tpos /\ tpos < 2^64 /\ tail_at P tpos (suffix_at (view_of L) u);
+             exists tpos, bc_link (t_bc P) u = Ok tpos /\ tpos < 2^60 /\ tail_at P tpos (suffix_at (view_of L) u);
   ph_term  : forall u, u < lenN (lg_units L) -> bv_get (t_terms P) u = Ok (nthb (lg_terms L) u);
   ph_rank  : forall u, u <= lenN (lg_units L) -> npos_to_id P u = Ok (rank_of (lg_terms L) u);
   ph_select: forall i, i < count_true (lg_terms L) ->
